@@ -552,6 +552,10 @@ func (rn *run) report(cc *cmpCtx, n uint64) {
 		switch {
 		case ix.spec.Inj && ix.spec.TM != "" && dg.mdOnlyMarkers:
 			sig = "index/injective-mapping/prev-entry-with-metadata/stale-target-not-deleted"
+		case ix.spec.Inj && ix.spec.TM != "" && rn.compacted.Load():
+			// delete markers missing or misplaced in a case where an index (this one or its source index)
+			// was restarted by a compaction earlier
+			sig = "index/compaction-restart/injective-index/stale-target-not-deleted-or-wrong-target-deleted"
 		case ix.spec.Inj && ix.spec.TM != "" && rn.cs.Bulk > 1:
 			sig = "index/injective-mapping/bulk>1/stale-target-not-deleted-or-wrong-target-deleted"
 		case ix.spec.TM == "" && ix.spec.SM == "" && rn.cs.Bulk > 1:
